@@ -6,6 +6,21 @@ import os
 ROOT = os.path.dirname(os.path.dirname(os.path.abspath(__file__)))
 
 CHECKS = {
+    "C20": {
+        "text": "Proof (Coq, closed under the global context) on an acceptance model of Config::load over a typed-leaf YAML tree: "
+                "whatever document is accepted, names are distinct and non-empty, storage/upload/metrics paths normalised, limits "
+                ">= 1, item lists and paths non-empty, passphrase non-empty, provider one of three, the threshold the value of a "
+                "well-formed duration; unknown keys rejected (top level and provider block as named theorems); normalisation "
+                "idempotent; the duration parser never panics. Tied to the code by running the real Config::load on every "
+                "single-fault mutation of valid documents and comparing verdict and accepted configuration with the extracted "
+                "model; the property's own list of malformations is evaluated on the implementation's verdict by an independent "
+                "classifier.",
+        "note": "Partial: YAML parsing and scalar resolution (serde_yaml) and validator's derive semantics are trusted; 'before any "
+                "storage or network access' rests on main.rs calling Config::load before dispatch (trace check not built yet). "
+                "Three defects found by this check were repaired in /repo (F4a, F4b, F8; see KNOWN_FINDINGS.json).",
+        "technique": "Coq proof about an acceptance model + exhaustive single-fault mutation correspondence with the real loader",
+        "design": "7/C20",
+    },
     "C06": {
         "text": "Proof (Coq, closed under the global context) on a model of the sync planner: no upload of a backup the cloud "
                 "holds; a deletion implies an error-free run, the wiped-local safeguard, a cloud group outside the window; the "
@@ -121,6 +136,7 @@ def main():
             "enable": "RUSTFLAGS=\"--cfg vsb_verif\" (set by vlib/build.py for the harness and for the vsb binary the checks build)",
             "baseline_off_cmd": "cd /repo && cargo test --workspace --no-fail-fast --offline",
             "source_commits": [],
+            "fix_commits": ["8b196ab", "64fc1ae", "9b93522"],
             "add_only": True,
         },
         "engines": [{
